@@ -15,6 +15,7 @@ import Oracle.Unify
 import Oracle.Offside
 import Oracle.Resolve
 import Oracle.Decl
+import Oracle.Key
 open Oracle
 
 /-- a line is `(<stream> payload...)`; the answer is one S-expression -/
@@ -34,6 +35,7 @@ def handle (line : String) : String :=
     | "sem.lowerT" => toString (Oracle.SemStream.handleLower false payload)
     | "c16.resolve" => toString (Oracle.ResolveStream.handle payload)
     | "c02.graph" => toString (Oracle.UnifyStream.handle payload)
+    | "c07.key" => toString (Oracle.Key.handle payload)
     | "c06.block" => toString (Oracle.OffsideStream.handle payload)
     | "c03.union" => toString (Oracle.Decl.handle payload)
     | "c03.record" => toString (Oracle.Decl.handleRecord payload)
